@@ -976,7 +976,8 @@ theorem procDecl_conf {s : St} {i j ilp irp ilc k : Nat} {nm : List Char} {tylp 
     parseProcDecl ctx none s = .ok { s with pos := k + 1 }
       (relProcDecl s.refPos { doc := docOf (G ctx) i, name := some (mkIdent (G ctx) j nm), params := ps, vars := vs,
                                stmts := ss.toList, info := mkInfo (G ctx) i k }) ∧
-    (s.pos ≤ i ∧ i < k) ∧ lead (G ctx) i = s.pos ∧ At ctx { s with pos := k + 1 } r8 := by
+    (s.pos ≤ i ∧ i < k) ∧ lead (G ctx) i = s.pos ∧ At ctx { s with pos := k + 1 } r8 ∧
+    (∃ t, ctx.toks[k]? = some t ∧ t.ty = tyk) := by
   obtain ⟨hN, ⟨tok, htok, hty⟩, hr0, hlead⟩ := hat.head
   -- doc comments, `proc`, name, `(`
   have hdoc := docComments_run ctx (i - s.pos) { s with errBuf := [] } i rfl hN
@@ -1056,7 +1057,7 @@ theorem procDecl_conf {s : St} {i j ilp irp ilc k : Nat} {nm : List Char} {tylp 
     simp only [procDeclInner, Option.bind_none, Option.map_none, Parse.bind, hdoc, he0, e1, e2, eP, e3, e4, eV', eS', e5, pure']
   have hpos : s.refPos ≤ k + 1 := by have := hat.ref; omega
   have hi := info_ok _ s _ _ inner hat.ref (by simpa using hpos)
-  refine ⟨?_, ⟨c0, by omega⟩, hlead, ⟨hat8.fresh, by simpa using hpos, hat8.toks⟩⟩
+  refine ⟨?_, ⟨c0, by omega⟩, hlead, ⟨hat8.fresh, by simpa using hpos, hat8.toks⟩, (hat7.head).2.1⟩
   simp only [parseProcDecl, affected, pmap, hi, relProcDecl, relInfo, mkInfo, hlead, docOf_eq ctx.toks s.pos i hlead,
     Option.map_some, relRefs_eq]
 
@@ -1258,7 +1259,7 @@ theorem decls_conf : ∀ (fd : Nat) (ts : Toks) (ds : List (Ref GlobalDecl)) (la
     · -- a procedure declaration
       obtain ⟨j, nm, ilp, tylp, r2, ps, irp, tyrp, ilc, tylc, r5, vs, r6, ss, k, tyk, r8, ds', last',
         rfl, klp, hps, krp, klc, hvs, hss, kk, hrec, rfl, rfl⟩ := decls_proc_flat _ _ _ _ _ _ hs
-      obtain ⟨e1, hp1, hlead, hat1⟩ := procDecl_conf ctx (hat.reref ctx) klp hps krp klc hvs hss kk
+      obtain ⟨e1, hp1, hlead, hat1, _⟩ := procDecl_conf ctx (hat.reref ctx) klp hps krp klc hvs hss kk
       obtain ⟨pd, hpd⟩ : ∃ pd : ProcDecl, pd = ProcDecl.mk (docOf (G ctx) i) (some (mkIdent (G ctx) j nm)) ps vs ss.toList (mkInfo (G ctx) i k) := ⟨_, rfl⟩
       rw [← hpd] at e1
       have hg : parseGlobalDecl ctx none { s with refPos := s.pos } =
